@@ -386,7 +386,7 @@ pub fn gen_spec(rng: &mut Rng, huge: bool) -> KySpec {
     let n_tags = if rng.chance(1, 12) { rng.range(4, 6) as u32 } else { rng.range(0, 3) as u32 };
     // character map: type letters, the core alphabet, some extras, tag characters
     let mut char_map: Vec<char> = vec!['K', 'T', 'H', 'R', 'D', 'O'];
-    for &c in gen::CORE.iter().chain(gen::EXTRA.iter()).chain(gen::NORMALISED.iter()) {
+    for &c in gen::CORE.iter().chain(gen::EXTRA.iter()).chain(gen::NORMALISED.iter()).chain(gen::DASHES.iter()) {
         if c != '\0' && !char_map.contains(&c) {
             char_map.push(c);
         }
